@@ -2,6 +2,7 @@ package main
 
 import (
 	"go/types"
+	"strings"
 
 	"golang.org/x/tools/go/ssa"
 )
@@ -47,7 +48,11 @@ func (x *Exec) loopTouchesFieldNamed(li *loopInfo, key string) bool {
 			return false
 		}
 		stt, ok := deref(fa.X.Type()).Underlying().(*types.Struct)
-		return ok && sanitize(stt.Field(fa.Field).Name()) == key
+		if !ok {
+			return false
+		}
+		k := sanitize(stt.Field(fa.Field).Name())
+		return k == key || strings.HasSuffix(key, "_"+k)
 	}
 	seen := map[*ssa.Function]bool{}
 	var instr func(in ssa.Instruction) bool
